@@ -76,8 +76,16 @@ def large_systems(chk, classes):
             f = np.clip(np.asarray(p_, dtype=float), 0, None) + 0.05 + 0.02 * rs.rand(len(p_))
             data.append((100 + 10 * j, f / f.sum()))
         q = np.concatenate([f for _, f in data])
-        p = A @ v + b
-        for mode in ("identity", "custom"):
+        for scale_v, mode in ((1.0, "identity"), (1.0, "custom"), (1.5, "identity"), (1.5, "custom")):
+            # without the built-in parametrisation the trace is free: 1.5 x the variables is a legitimate evaluation point at
+            # which predicted "probabilities" exceed one (the losses are defined there: the optimisers evaluate them off the
+            # physical set)
+            if scale_v != 1.0 and para:
+                continue
+            v = scale_v * np.asarray(at2.to_var(), dtype=float)
+            p = A @ v + b
+            if scale_v != 1.0 and not (p.max() > 1.0 and p.min() > 1e-3):
+                continue
             Ws, wre = [], []
             for j, m in enumerate(sizes):
                 M = rs.randn(m, m)
